@@ -260,22 +260,23 @@ func H_C15_math() {
 			fn = "max"
 		}
 		na := 1 + VChoice(3)
-		VAssume(VAnd(x == x, VAnd(y == y, z == z)))
 		args := []LValue{LNumber(x), LNumber(y), LNumber(z)}[:na]
 		vals := []float64{x, y, z}[:na]
 		out, err := callLib(L, "math", fn, 1, args...)
 		VAssert(err == nil, fn+": no error")
 		r := num(out, 0)
-		isOne := false
-		for _, v := range vals {
-			isOne = VOr(isOne, r == v)
+		// lmathlib.c: the first argument, replaced by each later one that compares greater (smaller): a NaN after
+		// the first position is never taken, a NaN in the first position is never replaced, and of two zeros the
+		// earlier one stays
+		ref := vals[0]
+		for _, v := range vals[1:] {
 			if isMax {
-				VAssert(r >= v, "max: not below any argument (all arguments are considered)")
+				ref = VIteF(v > ref, v, ref)
 			} else {
-				VAssert(r <= v, "min: not above any argument (all arguments are considered)")
+				ref = VIteF(v < ref, v, ref)
 			}
 		}
-		VAssert(isOne, fn+": the result is one of the arguments")
+		VAssert(VSameF(r, ref), fn+": the fold of > (<) over all arguments in order, as lmathlib.c (NaN and signed zeros included)")
 	case 5:
 		out, err := callLib(L, "math", "fmod", 1, LNumber(x), LNumber(y))
 		VAssert(err == nil, "fmod: no error")
